@@ -25,6 +25,9 @@ type M struct {
 	Nested []M
 	Ext    []F        // extensions declared inside this message: Card carries "ext:<Extendee>"
 	Ranges [][2]int32 // extension ranges
+	// Reserved: `reserved 2, 7 to 9, 1000 to max;` as [start, end) like the extension ranges; ReservedNames: `reserved "old";`
+	Reserved      [][2]int32
+	ReservedNames []string
 }
 
 type E struct {
@@ -229,6 +232,10 @@ func (s *Schema) message(m *M, scope, pkg string) *descriptorpb.DescriptorProto 
 	for _, r := range m.Ranges {
 		md.ExtensionRange = append(md.ExtensionRange, &descriptorpb.DescriptorProto_ExtensionRange{Start: proto.Int32(r[0]), End: proto.Int32(r[1])})
 	}
+	for _, r := range m.Reserved {
+		md.ReservedRange = append(md.ReservedRange, &descriptorpb.DescriptorProto_ReservedRange{Start: proto.Int32(r[0]), End: proto.Int32(r[1])})
+	}
+	md.ReservedName = append(md.ReservedName, m.ReservedNames...)
 	for _, x := range m.Ext {
 		t, tn := s.typeRef(x.Kind, pkg)
 		_, def := splitDefault(x.Kind)
